@@ -60,3 +60,39 @@ pub fn eval(op: &str, input: &mut Value) -> OpResult {
     _ => Err(format!("unknown-op:{op}")),
   }
 }
+
+/// client/server facts of the single operation of a generated spec
+pub fn eval_op(op: &str, input: &mut Value) -> OpResult {
+  let (files, stats) = match k_gen::generate(input) {
+    Ok(x) => x,
+    Err(e) => return Ok(json!({"err": e})),
+  };
+  let types = files.get("types").ok_or("no types file")?;
+  let tf = facts::file_facts(types);
+  if let Some(e) = tf.get("parse_error") {
+    return Ok(json!({"err": format!("emitted types file does not parse: {e}")}));
+  }
+  let structs: serde_json::Map<String, Value> = tf["items"]
+    .as_array()
+    .map(|a| {
+      a.iter()
+        .filter(|i| i["kind"] == "struct" || i["kind"] == "const" || i["kind"] == "enum")
+        .map(|i| (format!("{}:{}", i["kind"].as_str().unwrap_or(""), i["name"].as_str().unwrap_or("")), i.clone()))
+        .collect()
+    })
+    .unwrap_or_default();
+  match op {
+    "client.method" => {
+      let client = files.get("client").ok_or("no client file")?;
+      let cf = facts::file_facts(client);
+      Ok(json!({"methods": cf["client_methods"], "items": structs, "warnings": stats["warnings"], "header_impls": tf["items"].as_array().map(|a| a.iter().filter(|i| i["kind"] == "impl" && i["trait"].as_str().is_some_and(|t| t.contains("TryFrom"))).cloned().collect::<Vec<_>>())}))
+    }
+    "server.op" => {
+      let server = files.get("server").ok_or("no server file")?;
+      let sf = facts::file_facts(server);
+      let fns: Vec<Value> = sf["items"].as_array().map(|a| a.iter().filter(|i| i["kind"] == "fn" || i["kind"] == "trait").cloned().collect()).unwrap_or_default();
+      Ok(json!({"routes": sf["routes"], "fns": fns, "items": structs, "into_response": tf["into_response"], "warnings": stats["warnings"]}))
+    }
+    _ => Err(format!("unknown-op:{op}")),
+  }
+}
